@@ -875,6 +875,91 @@ def rule_isinstance_on_class(ctx: Ctx, rels: List[str]) -> None:
     ctx.ok_abstract("type.isinstance-on-class", f"{scanned} functions scanned, {hits} isinstance tests on a name bound to a class")
 
 
+# --------------------------------------------------------------------------- search.fallthrough
+
+
+def _first_access(node, v: str):
+    """'load' | 'store' | None: how the name v is first touched when `node` (a statement, an expression, or a list of statements) runs"""
+    if isinstance(node, list):
+        for st in node:
+            r = _first_access(st, v)
+            if r:
+                return r
+        return None
+    if isinstance(node, ast.Name):
+        if node.id == v:
+            return "load" if isinstance(node.ctx, ast.Load) else "store"
+        return None
+    if isinstance(node, ast.Assign):
+        return _first_access(node.value, v) or _first_access(node.targets, v)
+    if isinstance(node, ast.AugAssign):
+        return _first_access(node.value, v) or ("load" if any(isinstance(x, ast.Name) and x.id == v for x in ast.walk(node.target)) else None)
+    if isinstance(node, (ast.For, ast.AsyncFor)):
+        return _first_access(node.iter, v) or _first_access(node.target, v) or _first_access(node.body, v) or _first_access(node.orelse, v)
+    if isinstance(node, ast.While):
+        return _first_access(node.test, v) or _first_access(node.body, v) or _first_access(node.orelse, v)
+    if isinstance(node, ast.If):
+        r = _first_access(node.test, v)
+        if r:
+            return r
+        a, b = _first_access(node.body, v), _first_access(node.orelse, v)
+        if "load" in (a, b):
+            return "load"
+        return "store" if a == "store" and b == "store" else None
+    if isinstance(node, (ast.ListComp, ast.SetComp, ast.GeneratorExp, ast.DictComp)):
+        for g in node.generators:
+            r = _first_access(g.iter, v)
+            if r:
+                return r
+            if any(isinstance(x, ast.Name) and x.id == v for x in ast.walk(g.target)):
+                return None     # the comprehension binds its own v
+        return None
+    if isinstance(node, (ast.FunctionDef, ast.AsyncFunctionDef, ast.Lambda, ast.ClassDef)):
+        return None
+    for ch in ast.iter_child_nodes(node):
+        r = _first_access(ch, v)
+        if r:
+            return r
+    return None
+
+
+def rule_search_fallthrough(ctx: Ctx, rels: List[str]) -> None:
+    """search.fallthrough: `for i in R: if P(i): break` followed by a read of `i` uses the loop variable as "the element found".  When
+    nothing satisfies P the loop runs to its end and `i` is simply the last element — the same value as "found at the last element".
+    A for-else, a flag, or a value bound inside the `if` tells the two cases apart; reading the bare loop variable does not."""
+    rels = _widen(ctx, rels)
+    repo = ctx.repo
+    scanned = hits = 0
+    for rel in rels:
+        m = repo.module(rel)
+        for fn in [f for f in ast.walk(m.tree) if isinstance(f, (ast.FunctionDef, ast.AsyncFunctionDef))]:
+            scanned += 1
+            for blk in ast.walk(fn):
+                for name in ("body", "orelse", "finalbody"):
+                    body = getattr(blk, name, None)
+                    if not isinstance(body, list):
+                        continue
+                    for i, st in enumerate(body):
+                        if not (isinstance(st, ast.For) and isinstance(st.target, ast.Name) and not st.orelse):
+                            continue
+                        brk = [x for x in ast.walk(st) if isinstance(x, ast.Break)]
+                        if not brk:
+                            continue
+                        v = st.target.id
+                        if _first_access(body[i + 1:], v) != "load":
+                            continue
+                        # the read is harmless when the loop is known to run to a break (while True-like searches are not `for` loops), so: report
+                        hits += 1
+                        ctx.touch(m, fn)
+                        use = next(x for later in body[i + 1:] for x in ast.walk(later) if isinstance(x, ast.Name) and x.id == v and isinstance(x.ctx, ast.Load))
+                        ctx.fail("search.fallthrough", m, use,
+                                 f"{qualname(fn)} reads the loop variable `{v}` (line {use.lineno}) after the search loop `for {v} in {short(st.iter, 40)}` (line {st.lineno}) "
+                                 f"that leaves by `break` when it finds what it looks for; when nothing is found the loop ends normally and `{v}` is just the last "
+                                 f"element, which the code below cannot tell from a hit at the last element", func=qualname(fn),
+                                 construct=f"{qualname(fn)}: loop variable `{v}` read after a search loop")
+    ctx.ok_abstract("search.fallthrough", f"{scanned} functions scanned, {hits} reads of a search loop's variable after the loop")
+
+
 # --------------------------------------------------------------------------- zip.truncation
 
 
